@@ -64,9 +64,34 @@ def run(ctx):
     ctx.extra["verbs_registered"] = len(verbs)
     ctx.extra["verbs_sent_by_client"] = len(sent)
     ctx.sample({"registered_not_sent_from_remote_py": sorted(v.decode() for v in set(verbs) - set(sent))[:12]})
+    # ---- client-side state that must track the server's: lock release mode and the VFS view after an RPC insert ---------
+    from ..rules import calling, fn_cfg, k1_before, need
+    from ..cfg import assigns_to
+
+    for cname in ("RemoteBranch", "RemoteRepository"):
+        fn, g, where = fn_cfg(ctx, RM, f"{cname}.lock_write")
+        first = [n.id for n in g.nodes if n.kind == "stmt" and isinstance(n.ast, ast.Assign) and norm(n.ast.targets[0]) == "self._lock_count" and norm(n.ast.value) == "1"]
+        need(where, first, "self._lock_count = 1 (outermost lock)")
+        setl = g.find(assigns_to("self._leave_lock"))
+        ctx.check("lock-release-mode-reinitialised", where, bool(setl), "lock_write sets self._leave_lock")
+        k1_before(ctx, "lock-release-mode-reinitialised", where, g, setl, first, "every outermost lock_write (re)initialises whether unlock releases the server-side lock (True only for a lock taken over by token)")
+        vals = sorted({norm(g.nodes[i].ast.value) for i in setl})
+        ctx.check("lock-release-mode-reinitialised", where, vals == ["False", "True"], "the flag is True for a token lock and False otherwise", construct=str(vals), message=f"{cname}.lock_write leaves _leave_lock at its previous value on some path ({vals}): a handle that once used a token never releases the server-side lock again — the remote branch stays locked where the local one is unlocked")
+    fn, g, where = fn_cfg(ctx, RM, "RemoteStreamSink.insert_stream")
+    ok_rets = [n.id for n in g.nodes if n.kind == "stmt" and isinstance(n.ast, ast.Return) and norm(n.ast.value) == "([], set())"]
+    need(where, ok_rets, "return [], set() (stream fully inserted by the server)")
+    rf = calling(g, attr="refresh_data", recv="self.target_repo")
+    # only the success return reached after the RPC (the early 'nothing to send' return needs no refresh)
+    rpc = need(where, calling(g, attr="call_with_body_stream"), "the insert RPC")
+    after = [r_ for r_ in ok_rets if r_ in g.reach(rpc)]
+    need(where, after, "success return after the RPC")
+    r = g.reach(rpc, avoid=set(rf))
+    ctx.check("vfs-view-refreshed-after-rpc-insert", where, bool(rf) and not (set(after) & r), "after the server inserted the stream, target_repo.refresh_data() runs before success is reported (the client's VFS view reloads pack-names)", message="insert_stream reports success without refresh_data(): under a held write lock the client-side real repository keeps its old pack list, so VFS-backed reads and the next commit do not see the revisions just pushed — results differ from the same sequence on a local path")
 
 
 MUTANTS = [
+    Mutant("branch lock keeps the previous release mode", RM, "            if token is not None:\n                self._leave_lock = True\n            else:\n                self._leave_lock = False\n            self._lock_mode = \"w\"\n            self._lock_count = 1\n        elif self._lock_mode == \"r\":\n            raise errors.ReadOnlyError(self)\n        else:\n            if token is not None:\n                # A token was given to lock_write, and we're relocking, so\n                # check that the given token actually matches the one we\n                # already have.\n                if token != self._lock_token:\n                    raise errors.TokenMismatch(token, self._lock_token)\n            self._lock_count += 1\n            # Re-lock the repository too.\n            self.repository.lock_write(self._repo_lock_token)", "            if token is not None:\n                self._leave_lock = True\n            self._lock_mode = \"w\"\n            self._lock_count = 1\n        elif self._lock_mode == \"r\":\n            raise errors.ReadOnlyError(self)\n        else:\n            if token is not None:\n                # A token was given to lock_write, and we're relocking, so\n                # check that the given token actually matches the one we\n                # already have.\n                if token != self._lock_token:\n                    raise errors.TokenMismatch(token, self._lock_token)\n            self._lock_count += 1\n            # Re-lock the repository too.\n            self.repository.lock_write(self._repo_lock_token)", expect="lock-release-mode-reinitialised"),
+    Mutant("no refresh after the RPC insert", RM, "        else:\n            self.target_repo.refresh_data()\n            return [], set()\n", "        else:\n            return [], set()\n", expect="vfs-view-refreshed-after-rpc-insert"),
     Mutant("client sends an unregistered verb", RM, "b\"Branch.lock_write\"", "b\"Branch.lock_write2\"", expect="client-verb-registered"),
     Mutant("lazy registration names a missing class", RQ, "\"SmartServerBranchBreakLock\",", "\"SmartServerBranchBreakLocks\",", expect="handler-resolves"),
     Mutant("neutral: a new verb registered on the server only", RQ, "request_handlers.register_lazy(\n    b\"append\", \"breezy.bzr.smart.vfs\", \"AppendRequest\", info=\"mutate\"\n)", "request_handlers.register_lazy(\n    b\"append\", \"breezy.bzr.smart.vfs\", \"AppendRequest\", info=\"mutate\"\n)\nrequest_handlers.register_lazy(\n    b\"append2\", \"breezy.bzr.smart.vfs\", \"AppendRequest\", info=\"mutate\"\n)", neutral=True),
